@@ -35,6 +35,10 @@ func yield() {
 	}
 }
 
+// Y is a cooperative scheduling point inserted by the build overlay into
+// code that takes no locks (simgen rule "yields").
+func Y() { yield() }
+
 func pick(n int) int {
 	if p := Pick; p != nil && n > 1 {
 		i := p(n)
